@@ -9,6 +9,7 @@ import (
 	"os/exec"
 	"path/filepath"
 	"sort"
+	"strconv"
 	"strings"
 	"sync"
 	"time"
@@ -102,7 +103,10 @@ func runCheck(args []string) int {
 		return 2
 	}
 	cfg := &gosym.Config{RepoDir: *repo, Overlay: ov, Tags: "verif", Patterns: []string{"./..."},
-		Findings: mine, AssertTimeoutMs: ts.AssertTimeoutMs}
+		Findings: mine, AssertTimeoutMs: ts.AssertTimeoutMs, ValidatePerCell: 1}
+	if *tier == "thorough" {
+		cfg.ValidatePerCell = 3
+	}
 	prog, err := gosym.Load(cfg)
 	if err != nil {
 		fmt.Println("ERROR: cannot load /repo with harness overlay (does it still compile?):")
@@ -287,18 +291,36 @@ func runCheck(args []string) int {
 		inconclusive = append(inconclusive, "no path ran to completion (every path ended in Assume)")
 	}
 
-	// ---- replay violations natively ----
+	// ---- translator validation and replay of violations (native runs) ----
 	exit := 0
 	reported := 0
 	var replayNotes []string
-	if len(violations) > 0 {
+	var validations []*gosym.ValidationSample
+	for _, o := range outs {
+		validations = append(validations, o.res.Validations...)
+	}
+	validated := 0
+	var bin string
+	var berr error
+	if len(violations) > 0 || len(validations) > 0 {
 		scratch, err := os.MkdirTemp("", "gosym-replay-")
 		if err != nil {
 			fmt.Println("ERROR:", err)
 			return 2
 		}
 		defer os.RemoveAll(scratch)
-		bin, berr := buildReplay(*repo, ovroot, scratch)
+		bin, berr = buildReplay(*repo, ovroot, scratch)
+		if berr != nil {
+			inconclusive = append(inconclusive, "cannot build native replay binary: "+berr.Error())
+		} else {
+			bad := validateAll(bin, *repo, scratch, validations, nw)
+			validated = len(validations) - len(bad)
+			for _, b := range bad {
+				inconclusive = append(inconclusive, "translator validation: "+b)
+			}
+		}
+	}
+	if len(violations) > 0 {
 		// report at most 5 distinct violations (by assertion id + harness)
 		seen := map[string]int{}
 		for _, v := range violations {
@@ -367,7 +389,7 @@ func runCheck(args []string) int {
 			Coverage: map[string]interface{}{
 				"states":                        paths,
 				"transitions":                   int(total.Branches) + 1,
-				"traces_validated_against_impl": len(replayNotes),
+				"traces_validated_against_impl": validated + len(replayNotes),
 				"samples":                       samples,
 				"cells":                         len(jobs),
 				"harnesses":                     hs,
@@ -512,6 +534,66 @@ func runReplay(bin, repo, harness, path string, v *gosym.Violation) (bool, strin
 		tail = tail[len(tail)-600:]
 	}
 	return false, fmt.Sprintf("native exit status %d, output tail: %q", code, tail)
+}
+
+// validateAll runs each sampled path natively under its model and compares
+// the noted values; returns descriptions of mismatches.
+func validateAll(bin, repo, scratch string, vs []*gosym.ValidationSample, par int) []string {
+	var mu sync.Mutex
+	var bad []string
+	sem := make(chan struct{}, par)
+	var wg sync.WaitGroup
+	for i, v := range vs {
+		wg.Add(1)
+		sem <- struct{}{}
+		go func(i int, v *gosym.ValidationSample) {
+			defer wg.Done()
+			defer func() { <-sem }()
+			rf := replayFile{Harness: shortHarness(v.Harness), Model: v.Model, Chooses: v.Chooses}
+			b, _ := json.Marshal(rf)
+			mf := filepath.Join(scratch, fmt.Sprintf("val%d.json", i))
+			os.WriteFile(mf, b, 0644)
+			cmd := exec.Command(bin, "-test.run", "^TestVerifReplay$", "-test.v", "-test.timeout", "120s")
+			cmd.Dir = filepath.Join(repo, "internal")
+			cmd.Env = append(os.Environ(), "VERIF_MODEL="+mf, "VERIF_HARNESS="+rf.Harness)
+			out, _ := cmd.CombinedOutput()
+			s := string(out)
+			native := map[string]string{}
+			for _, line := range strings.Split(s, "\n") {
+				if strings.HasPrefix(line, "VERIF-NOTE ") {
+					kv := strings.SplitN(strings.TrimPrefix(line, "VERIF-NOTE "), "=", 2)
+					if len(kv) == 2 {
+						if u, err := strconv.Unquote(kv[1]); err == nil {
+							native[kv[0]] = u
+						}
+					}
+				}
+			}
+			var diffs []string
+			if !strings.Contains(s, "VERIF-DONE") {
+				tail := s
+				if len(tail) > 400 {
+					tail = tail[len(tail)-400:]
+				}
+				diffs = append(diffs, fmt.Sprintf("native run did not complete: %q", tail))
+			}
+			for k, ev := range v.Notes {
+				if strings.Contains(ev, "‹") {
+					continue
+				}
+				if nv, ok := native[k]; !ok || nv != ev {
+					diffs = append(diffs, fmt.Sprintf("note %s: engine %q native %q", k, ev, nv))
+				}
+			}
+			if len(diffs) > 0 {
+				mu.Lock()
+				bad = append(bad, fmt.Sprintf("%s model=%v chooses=%v: %s", v.Harness, v.Model, v.Chooses, strings.Join(diffs, "; ")))
+				mu.Unlock()
+			}
+		}(i, v)
+	}
+	wg.Wait()
+	return bad
 }
 
 func runReplayCmd(args []string) int {
